@@ -43,6 +43,14 @@ def showNats (l : List Nat) : String :=
 
 def rtEngine (args : List String) : String :=
   match args with
+  | ["find", first, cur, path, supplied] =>
+    match pBool first, pNat cur, pNatList path, pNatList supplied with
+    | some first, some cur, some path, some supplied =>
+      match findEndMarket first path cur supplied with
+      | none => "err"
+      | some none => "current"
+      | some (some t) => s!"market {t}"
+    | _, _, _, _ => "bad-op"
   | ["create", cur, plen, slen, accs, tip, tis, top, tos] =>
     match pCMarket cur, pCMarkets accs, allNat [plen, slen, tip, tis, top, tos] with
     | some cur, some accs, some [plen, slen, tip, tis, top, tos] =>
